@@ -12,3 +12,4 @@ for d in seeded/*/; do
   else fail=$((fail+1)); echo "MISSED  $n  $(echo "$out" | tail -2)"; fi
 done
 echo "seeded regression: $pass caught, $fail missed"
+tools/try_mutant.sh --clean
